@@ -322,7 +322,13 @@ func (ei *resourceInformer) handleWatchEvent(object interface{}, eventType kemty
 			slog.String("debugName", ei.Monitor.Metadata.DebugName),
 			slog.String("eventType", string(eventType)),
 			log.Err(err))
-		return
+		if eventType != kemtypes.WatchEventDeleted {
+			return
+		}
+		// Delete is always fired: the object is gone whatever the filter says about its last state.
+		objFilterRes = &kemtypes.ObjectAndFilterResult{Object: obj}
+		objFilterRes.Metadata.JqFilter = ei.Monitor.JqFilter
+		objFilterRes.Metadata.ResourceId = resourceId
 	}
 
 	if !ei.Monitor.KeepFullObjectsInMemory {
